@@ -20,6 +20,11 @@ func (r *FragRule) RunPass(ctx *Context, pass Pass) {
 			Pos: r.Bounds().Begin,
 		}
 
+		// The generated state machine returns as soon as it runs @emit, @discard
+		// or the implicit accumulate action. That action must therefore be the
+		// last one of the list, or the actions written after it would never run.
+		var lastAction *mode.Action
+
 		hasDiscard := false
 		hasEmit := false
 		for _, actAST := range r.Actions {
@@ -33,6 +38,8 @@ func (r *FragRule) RunPass(ctx *Context, pass Pass) {
 					return
 				}
 				hasDiscard = true
+				lastAction = &act
+				continue
 			case mode.ActionAccept:
 				if hasEmit {
 					ctx.Errs.Errorf(
@@ -41,14 +48,16 @@ func (r *FragRule) RunPass(ctx *Context, pass Pass) {
 					return
 				}
 				hasEmit = true
+				lastAction = &act
+				continue
 			}
 			actions.Actions = append(actions.Actions, act)
 		}
 
 		if !hasDiscard && !hasEmit {
-			actions.Actions = append(actions.Actions, mode.Action{
+			lastAction = &mode.Action{
 				Type: mode.ActionAccum,
-			})
+			}
 		}
 
 		if hasDiscard && hasEmit {
@@ -57,6 +66,8 @@ func (r *FragRule) RunPass(ctx *Context, pass Pass) {
 				"@frag cannot be discarded and emitted at the same time")
 			return
 		}
+
+		actions.Actions = append(actions.Actions, *lastAction)
 
 		nfaCons.E.Data = actions
 		ctx.CurrentLexerMode.Peek().AddRule(*nfaCons)
